@@ -1262,6 +1262,62 @@ Proof.
   repeat destruct Hb as [<-|Hb]; try contradiction; vm_compute; discriminate.
 Qed.
 
+Lemma args3 p q r ts : args_ok [p; q; r] None ts = true ->
+  exists a b c, ts = [a; b; c] /\ arg_ok p a = true /\ arg_ok q b = true /\ arg_ok r c = true.
+Proof.
+  destruct ts as [|a [|b [|c [|d ts]]]]; simpl; try discriminate.
+  - intros H. apply andb_true_iff in H as [_ H]. discriminate.
+  - intros H. apply andb_true_iff in H as [_ H]. apply andb_true_iff in H as [_ H]. discriminate.
+  - intros H. apply andb_true_iff in H as [H1 H]. apply andb_true_iff in H as [H2 H].
+    apply andb_true_iff in H as [H3 _]. eauto 8.
+  - intros H. apply andb_true_iff in H as [_ H]. apply andb_true_iff in H as [_ H].
+    apply andb_true_iff in H as [_ H]. discriminate.
+Qed.
+Ltac sig3 Hok HF :=
+  unfold sig_args_ok in Hok; cbn [fs_var fs_params] in Hok;
+  let H1 := fresh "Hok" in let H2 := fresh "Hok" in let H3 := fresh "Hok" in
+  apply args3 in Hok as (? & ? & ? & -> & H1 & H2 & H3);
+  apply arg_ok_basic in H1; [subst|discriminate|discriminate];
+  apply arg_ok_basic in H2; [subst|discriminate|discriminate];
+  apply arg_ok_basic in H3; [subst|discriminate|discriminate];
+  let HF' := fresh "HF" in rename HF into HF'; fa2 HF'.
+
+(* results of the pure string and math built-ins that are in the fragment *)
+Lemma pure_builtin_sound P S G e s name vals m sg ts :
+  pure_builtin name vals = Some m -> mem_str name s1_builtins = true -> builtin_sig name = Some sg ->
+  sig_args_ok sg ts = true -> Forall2 (fun l t => sfind S l = Some t) vals ts ->
+  genv_ok P G -> inv S G e s ->
+  wp (m s) (bpost S G e (fs_ret sg)).
+Proof.
+  intros Hb Hs1 Hsig Hok HF HG Hi. pose proof Hi as [Hh He].
+  unfold pure_builtin in Hb.
+  repeat match type of Hb with
+  | (if name_is ?n ?lit then Some _ else _) = Some _ =>
+      let E := fresh "E" in
+      destruct (name_is n lit) eqn:E;
+      [ unfold name_is in E; apply str_eqb_eq in E; subst n; injection Hb as <-;
+        vm_compute in Hs1; try discriminate Hs1;
+        vm_compute in Hsig; injection Hsig as <-; cbn [fs_ret] | clear E ]
+  end; try discriminate Hb.
+  - (* upper *) sig1 Hok HF. load_s. destruct (is_ascii _); [apply bpost_of_alloc_str; auto | exact I].
+  - (* lower *) sig1 Hok HF. load_s. destruct (is_ascii _); [apply bpost_of_alloc_str; auto | exact I].
+  - (* trim *) sig2 Hok HF. load_s. load_s. apply bpost_of_alloc_str; auto.
+  - (* replace *) sig3 Hok HF. load_s. load_s. load_s. apply bpost_of_alloc_str; auto.
+  - (* index *) sig2 Hok HF. load_s. load_s. apply bpost_of_alloc_num; auto.
+  - (* floor *) sig1 Hok HF. load_n. apply bpost_of_alloc_num; auto.
+  - (* ceil *) sig1 Hok HF. load_n. apply bpost_of_alloc_num; auto.
+  - (* round *) sig1 Hok HF. load_n. apply bpost_of_alloc_num; auto.
+  - (* pow *) sig2 Hok HF. load_n. load_n. exact I.
+  - (* atan2 *) sig2 Hok HF. load_n. load_n. exact I.
+  - (* log *) sig1 Hok HF. load_n. exact I.
+  - (* sin *) sig1 Hok HF. load_n. exact I.
+  - (* cos *) sig1 Hok HF. load_n. exact I.
+  - (* rand *) sig1 Hok HF. load_n. destruct (negb _); exact I.
+  - (* rand1 *)
+    unfold sig_args_ok in Hok; cbn [fs_var fs_params] in Hok. apply args0 in Hok. subst ts.
+    inversion HF; subst. exact I.
+Qed.
+
 Lemma builtin_sound P S G e s name vals m sg ts :
   builtin name e vals = Some m -> mem_str name s1_builtins = true -> builtin_sig name = Some sg ->
   sig_args_ok sg ts = true -> Forall2 (fun l t => sfind S l = Some t) vals ts ->
@@ -1366,9 +1422,8 @@ Proof.
       simpl in Hin. repeat destruct Hin as [<-|Hin]; try contradiction;
         vm_compute in Hsig; injection Hsig as <-; cbn [fs_ret];
         sig1 Hok HF; load_s; apply emit_none_bpost; auto. }
-    (* the pure string and math built-ins are not in the stage-1 list *)
-    exfalso. apply pure_builtin_names in Hb. simpl in Hb.
-    repeat destruct Hb as [<-|Hb]; try contradiction; vm_compute in Hs1; discriminate Hs1.
+    (* the pure string and math built-ins *)
+    eapply pure_builtin_sound; eauto.
 Qed.
 
 Lemma builtin_none name e vals : builtin name e vals = None -> mem_str name s1_builtins = false.
@@ -1381,6 +1436,11 @@ Proof.
   destruct (existsb (str_eqb name) gfx_num_names) eqn:X1; [discriminate|].
   destruct (existsb (str_eqb name) gfx_xy_names) eqn:X2; [discriminate|].
   destruct (existsb (str_eqb name) gfx_str_names) eqn:X3; [discriminate|].
+  unfold pure_builtin in Hb.
+  repeat match type of Hb with
+  | (if name_is ?n ?lit then Some _ else _) = None =>
+      let E := fresh "E" in destruct (name_is n lit) eqn:E; [discriminate Hb|]
+  end.
   apply not_true_is_false. intros Hm. apply mem_str_In in Hm. simpl in Hm.
   repeat destruct Hm as [<-|Hm]; try contradiction;
     repeat match goal with
